@@ -366,4 +366,348 @@ theorem nsinv_frame (w : World) (l : Label) (hg : guard w l = true) (hI : NSInv 
   · intro q A i hq hA hi hi'
     exact hq (hI.disj q .ext A A' i hA hA' hi hi')
 
+
+/-! ### the labels that write an activation -/
+
+theorem peEnter_act (w : World) (p : Proc) (b : BId) : (peEnter w p b).act = w.act := by
+  cases p <;> simp [peEnter]
+
+theorem peOpen_act_same (w : World) (p : Proc) (b : BId) (e : EId) :
+    (peOpen w p b e).act p = some { bus := b, ev := e, todo := applicable w b e, running := [], sel := applicable w b e } := by
+  unfold peOpen; simp only []; split <;> simp [markComplete_act]
+
+theorem peOpen_act_other (w : World) (p q : Proc) (b : BId) (e : EId) (h : q ≠ p) : (peOpen w p b e).act q = w.act q := by
+  unfold peOpen; simp only []; split <;> simp [markComplete_act, h]
+
+theorem nsinv_peBegin (w : World) (p : Proc) (b : BId) (e : EId) (hg : guard w (.peBegin p b e) = true) (hI : NSInv w) :
+    NSInv (apply0 w (.peBegin p b e)) := by
+  refine nsinv_of w _ hg hI p (by rw [apply0_ni]; exact Nat.le_refl _) ?_ ?_
+  · intro q hq
+    simp only [apply0]
+    rw [peOpen_act_other _ _ _ _ _ hq, peEnter_act]
+  · intro A' hA'
+    simp only [apply0] at hA'
+    rw [peOpen_act_same] at hA'
+    cases hA'
+    refine ⟨⟨0, by simp, Or.inl rfl, by simp⟩, by simp, by simp⟩
+
+
+theorem applySched_act_same (w : World) (p : Proc) (i : IId) (b : BId) (e : EId) (k : HId) (A : Act) (hA : w.act p = some A) :
+    (applySched w p i b e k).act p = some { A with todo := A.todo.tail, running := A.running ++ [i] } := by
+  unfold applySched; simp [hA]
+
+theorem applySched_act_other (w : World) (p q : Proc) (i : IId) (b : BId) (e : EId) (k : HId) (h : q ≠ p) :
+    (applySched w p i b e k).act q = w.act q := by
+  unfold applySched; cases hA : w.act p <;> simp [h]
+
+theorem nsinv_hSched (w : World) (p : Proc) (i : IId) (b : BId) (e : EId) (k : HId)
+    (hg : guard w (.hSched p i b e k) = true) (hI : NSInv w) : NSInv (apply0 w (.hSched p i b e k)) := by
+  have hgg := hg
+  simp [guard, checks, Checks.ok] at hgg
+  obtain ⟨hi, hne, hact, _, hhead, _, hp, _⟩ := hgg
+  subst hi
+  cases hA : w.act p with
+  | none => simp [actIs, hA] at hact
+  | some A =>
+    simp [actIs, hA] at hact
+    obtain ⟨hb, he⟩ := hact
+    simp [hA] at hhead
+    cases hr : (w.ev e).getRes? b k with
+    | none => simp [hr] at hp
+    | some r =>
+    obtain ⟨_, hid⟩ := hSched_new_instance w p b e k r hr
+    have hne' := apply0_ne_mono w (.hSched p w.ni b e k)
+    refine nsinv_of w _ hg hI p (by rw [apply0_ni]; exact Nat.le_succ _) ?_ ?_
+    · intro q hq; simp only [apply0]; exact applySched_act_other _ _ _ _ _ _ _ hq
+    · intro A' hA'
+      have hA'' := hA'
+      simp only [apply0] at hA''
+      rw [applySched_act_same _ _ _ _ _ _ A hA] at hA''
+      cases hA''
+      obtain ⟨n, h2, _, h3⟩ := hI.acts p A hA
+      have hAne : A.ev < w.ne := by rw [he]; exact hne
+      have hn : A.sel[n]? = some k := by
+        have := hhead; rw [h2, List.head?_drop] at this; exact this
+      refine ⟨⟨n + 1, ?_, Or.inr (Nat.lt_of_lt_of_le hAne hne'), ?_⟩, ?_, ?_⟩
+      · show A.todo.tail = A.sel.drop (n + 1)
+        rw [h2, List.tail_drop]
+      · intro k' hk'
+        have hk'' : k' ∈ A.sel.take n ∨ k' = k := by
+          have : k' ∈ A.sel.take (n + 1) := hk'
+          rw [List.take_succ, hn] at this
+          simpa using this
+        rcases hk'' with hk'' | hk''
+        · refine done_mono w _ A _ k' rfl rfl hAne
+            (fun b' k'' ht => apply0_terminal w _ A.ev b' k'' hAne hg ht) ?_ (h3 k' hk'')
+          intro j hj
+          exact ⟨by simp [hj], apply0_inst_id w _ j (hI.run p A j hA hj) hg⟩
+        · subst hk''
+          right
+          refine ⟨w.ni, by simp, ?_⟩
+          rw [hid, he, hb]
+      · intro j hj
+        rw [apply0_ni]
+        have : j ∈ A.running ++ [w.ni] := hj
+        simp at this
+        rcases this with h | h
+        · exact Nat.lt_succ_of_lt (hI.run p A j hA h)
+        · subst h; exact Nat.lt_succ_self _
+      · intro q B j hq hB hj hj'
+        have : j ∈ A.running ++ [w.ni] := hj'
+        simp at this
+        rcases this with h | h
+        · exact hq (hI.disj q p B A j hB hA hj h)
+        · subst h; exact absurd (hI.run q B _ hB hj) (Nat.lt_irrefl _)
+
+
+theorem cancelPendingChildren_act (fuel : Nat) (w : World) (x : EId) : (cancelPendingChildren w fuel x).act = w.act := by
+  induction fuel generalizing w x with
+  | zero => rfl
+  | succ n ih =>
+    unfold cancelPendingChildren
+    generalize (w.ev x).children = cs
+    induction cs generalizing w with
+    | nil => rfl
+    | cons c cs ihc => simp only [List.foldl_cons]; rw [ihc, ih]; simp
+
+theorem applyFinish_act_same (w : World) (i : IId) (r : Fin) (A : Act) (hA : w.act (w.inst i).exec = some A) :
+    (applyFinish w i r).act (w.inst i).exec = some { A with running := A.running.erase i } := by
+  unfold applyFinish; simp only [hA]; split <;> simp [cancelPendingChildren_act]
+
+theorem applyFinish_act_other (w : World) (i : IId) (r : Fin) (q : Proc) (h : q ≠ (w.inst i).exec) :
+    (applyFinish w i r).act q = w.act q := by
+  unfold applyFinish; simp only []
+  cases hA : w.act (w.inst i).exec <;> simp only [] <;> split <;> simp [cancelPendingChildren_act, h]
+
+/-- recording an instance's outcome makes the result of its (event, bus, handler) terminal -/
+theorem applyFinish_makes_terminal (w : World) (i : IId) (r : Fin)
+    (hst : Started (w.ev (w.inst i).ev) (w.inst i).bus (w.inst i).hid) :
+    Terminal ((applyFinish w i r).ev (w.inst i).ev) (w.inst i).bus (w.inst i).hid := by
+  obtain ⟨r0, hr0, _⟩ := hst
+  have hfound := List.find?_some hr0
+  have h1 : Terminal ((w.modEv (w.inst i).ev fun E => E.updRes (w.inst i).bus (w.inst i).hid fun x =>
+      { x with status := r.status, err := r.err }).ev (w.inst i).ev) (w.inst i).bus (w.inst i).hid := by
+    simp only [modEv_eq, setEv_ev, if_true]
+    refine ⟨{ r0 with status := r.status, err := r.err }, ?_, by cases r <;> simp [Fin.status, Res.terminal]⟩
+    simp only [Ev.getRes?, Ev.updRes] at hr0 ⊢
+    rw [getRes_map _ _ _ _ (by intro y; split <;> simp), hr0]
+    simp only [Option.map_some, hfound, if_true]
+  unfold applyFinish
+  simp only []
+  cases hA : w.act (w.inst i).exec <;> simp only [] <;> split <;>
+    first
+    | (apply cancelPendingChildren_terminal; simpa using h1)
+    | (simpa using h1)
+
+theorem nsinv_hFinish (w : World) (i : IId) (r : Fin) (hg : guard w (.hFinish i r) = true) (hI : NSInv w) (hO : OnceInv w) :
+    NSInv (apply0 w (.hFinish i r)) := by
+  have hgg := hg
+  simp [guard, checks, Checks.ok] at hgg
+  obtain ⟨hi, _, _, hrun⟩ := hgg
+  cases hA : w.act (w.inst i).exec with
+  | none => simp [hA] at hrun
+  | some A =>
+    simp [hA] at hrun
+    have hne' := apply0_ne_mono w (.hFinish i r)
+    refine nsinv_of w _ hg hI (w.inst i).exec (by rw [apply0_ni]; exact Nat.le_refl _) ?_ ?_
+    · intro q hq; simp only [apply0]; exact applyFinish_act_other _ _ _ _ hq
+    · intro A' hA'
+      have hA'' := hA'
+      simp only [apply0] at hA''
+      rw [applyFinish_act_same _ _ _ A hA] at hA''
+      cases hA''
+      obtain ⟨n, h2, h1, h3⟩ := hI.acts _ A hA
+      refine ⟨⟨n, h2, h1.imp id (fun h => Nat.lt_of_lt_of_le h hne'), ?_⟩, ?_, ?_⟩
+      · intro k hk
+        rcases h1 with h1 | h1
+        · subst h1; simp at hk
+        · rcases h3 k hk with ht | ⟨j, hj, hid⟩
+          · left; exact apply0_terminal w _ A.ev A.bus k h1 hg ht
+          · by_cases hji : j = i
+            · -- the finishing instance was the witness: its result is terminal now
+              subst hji
+              left
+              have := applyFinish_makes_terminal w j r (hO j hi).1
+              simp only [idOf, Prod.mk.injEq] at hid
+              obtain ⟨e1, e2, e3⟩ := hid
+              rw [e1, e2, e3] at this
+              exact this
+            · right
+              refine ⟨j, (List.mem_erase_of_ne hji).mpr hj, ?_⟩
+              rw [apply0_inst_id w _ j (hI.run _ A j hA hj) hg]; exact hid
+      · intro j hj
+        rw [apply0_ni]
+        exact hI.run _ A j hA (List.mem_of_mem_erase hj)
+      · intro q B j hq hB hj hj'
+        exact hq (hI.disj q _ B A j hB hA hj (List.mem_of_mem_erase hj'))
+
+
+theorem parentWalk_act (fuel : Nat) (w : World) (x : EId) (seen : List EId) : (parentWalk w fuel x seen).act = w.act := by
+  induction fuel generalizing w x seen with
+  | zero => rfl
+  | succ n ih =>
+    unfold parentWalk
+    split
+    · rfl
+    · split
+      · rfl
+      · split
+        · rw [ih, markComplete_act]
+        · rfl
+
+theorem releaseRl_act (w : World) (b : BId) : (releaseRl w b).act = w.act := by
+  unfold releaseRl rlIdleCheck rlBack; split <;> simp
+
+theorem peClose_act (w : World) (p : Proc) (b : BId) (e : EId) : (peClose w p b e).act = (w.setAct p none).act := by
+  unfold peClose
+  funext q
+  by_cases hq : q = p
+  · subst hq; simp
+  · simp [hq, cleanup_act, parentWalk_act, markComplete_act]
+
+/-- closing an activation (normally or not) removes it and touches no other -/
+theorem nsinv_close (w : World) (l : Label) (p : Proc) (hg : guard w l = true) (hI : NSInv w)
+    (hni : (apply0 w l).ni = w.ni) (hact : (apply0 w l).act = (w.setAct p none).act) : NSInv (apply0 w l) := by
+  refine nsinv_of w l hg hI p (by rw [hni]; exact Nat.le_refl _) ?_ ?_
+  · intro q hq; rw [hact]; simp [hq]
+  · intro A' hA'; rw [hact] at hA'; simp at hA'
+
+theorem nsinv_peEnd (w : World) (p : Proc) (b : BId) (e : EId) (hg : guard w (.peEnd p b e) = true) (hI : NSInv w) :
+    NSInv (apply0 w (.peEnd p b e)) := by
+  refine nsinv_close w _ p hg hI (by rw [apply0_ni]) ?_
+  cases p <;> simp only [apply0] <;> simp [releaseRl_act, peClose_act]
+
+theorem nsinv_peAbort (w : World) (p : Proc) (b : BId) (e : EId) (hg : guard w (.peAbort p b e) = true) (hI : NSInv w) :
+    NSInv (apply0 w (.peAbort p b e)) := by
+  refine nsinv_close w _ p hg hI (by rw [apply0_ni]) ?_
+  cases p <;> simp [apply0]
+
+theorem nsinv_walWrite (w : World) (p : Proc) (b : BId) (e : EId) (ok : Bool) (hg : guard w (.walWrite p b e ok) = true)
+    (hI : NSInv w) : NSInv (apply0 w (.walWrite p b e ok)) := by
+  have hne' := apply0_ne_mono w (.walWrite p b e ok)
+  have hoth : ∀ q, q ≠ p → (apply0 w (.walWrite p b e ok)).act q = w.act q := by
+    intro q hq
+    simp only [apply0]
+    cases hA : w.act p <;> cases ok <;> simp [hq]
+  refine nsinv_of w _ hg hI p (by rw [apply0_ni]; exact Nat.le_refl _) hoth ?_
+  intro A' hA'
+  cases hA : w.act p with
+  | none =>
+    exfalso
+    simp only [apply0, hA] at hA'
+    cases ok <;> simp [hA] at hA'
+  | some A =>
+    have hsame : A' = { A with walDone := true } := by
+      simp only [apply0, hA] at hA'
+      cases ok <;> simp at hA' <;> exact hA'.symm
+    subst hsame
+    obtain ⟨n, h2, h1, h3⟩ := hI.acts p A hA
+    refine ⟨⟨n, h2, h1.imp id (fun h => Nat.lt_of_lt_of_le h hne'), ?_⟩, ?_, ?_⟩
+    · intro k hk
+      rcases h1 with h1 | h1
+      · subst h1; simp at hk
+      · exact done_mono w _ A _ k rfl rfl h1 (fun b' k' ht => apply0_terminal w _ A.ev b' k' h1 hg ht)
+          (fun j hj => ⟨hj, apply0_inst_id w _ j (hI.run p A j hA hj) hg⟩) (h3 k hk)
+    · intro j hj; rw [apply0_ni]; exact hI.run p A j hA hj
+    · intro q B j hq hB hj hj'
+      exact hq (hI.disj q p B A j hB hA hj hj')
+
+
+/-! ### every reachable state -/
+
+theorem nsinv_apply0 (w : World) (l : Label) (hg : guard w l = true) (hI : NSInv w) (hO : OnceInv w) : NSInv (apply0 w l) := by
+  cases hw : writesAct l
+  · exact nsinv_frame w l hg hI hw
+  · cases l <;> simp [writesAct] at hw
+    case peBegin p b e => exact nsinv_peBegin w p b e hg hI
+    case hSched p i b e k => exact nsinv_hSched w p i b e k hg hI
+    case hFinish i r => exact nsinv_hFinish w i r hg hI hO
+    case walWrite p b e ok => exact nsinv_walWrite w p b e ok hg hI
+    case peEnd p b e => exact nsinv_peEnd w p b e hg hI
+    case peAbort p b e => exact nsinv_peAbort w p b e hg hI
+
+theorem nsinv_wake (w : World) (h : NSInv w) : NSInv (wake w) := by
+  refine ⟨?_, ?_, ?_⟩
+  · intro p A hA
+    simp only [wake_act] at hA
+    obtain ⟨n, h2, h1, h3⟩ := h.acts p A hA
+    refine ⟨n, h2, by simpa only [wake_ne] using h1, fun k hk => ?_⟩
+    have := h3 k hk
+    unfold Done at this ⊢
+    simpa only [wake_ev, wake_inst] using this
+  · intro p A i hA hi
+    simp only [wake_act] at hA
+    simpa only [wake_ni] using h.run p A i hA hi
+  · intro p p' A A' i hA hA' hi hi'
+    simp only [wake_act] at hA hA'
+    exact h.disj p p' A A' i hA hA' hi hi'
+
+theorem nsinv_step (w w' : World) (l : Label) (hI : NSInv w) (hO : OnceInv w) (hs : step w l = some w') : NSInv w' := by
+  obtain ⟨hg, rfl⟩ := step_some hs
+  exact nsinv_wake _ (nsinv_apply0 w l hg hI hO)
+
+theorem nsinv_init : NSInv ({} : World) := by
+  refine ⟨?_, ?_, ?_⟩ <;> intro p <;> intros <;> simp_all [World.act]
+
+theorem nsinv_run (w w' : World) (ls : List Label) (hI : NSInv w) (hO : OnceInv w) (h : run w ls = some w') :
+    NSInv w' ∧ OnceInv w' := by
+  induction ls generalizing w with
+  | nil => simp [run] at h; subst h; exact ⟨hI, hO⟩
+  | cons l ls ih =>
+    simp only [run] at h
+    cases hs : step w l with
+    | none => simp [hs] at h
+    | some w1 =>
+      simp only [hs] at h
+      exact ih w1 (nsinv_step w w1 l hI hO hs) (onceInv_step w w1 l hO hs) h
+
+theorem nsinv_reachable (w : World) (hr : Reachable w) : NSInv w := by
+  obtain ⟨ls, h⟩ := hr
+  exact (nsinv_run {} w ls nsinv_init onceInv_init h).1
+
+namespace Thm
+
+/-- C01, "no handler is skipped", for every reachable state: in every open activation each handler that was selected when the
+    activation began is still on its to-do list, or is being run by a live instance of this activation, or already has a
+    terminal result on the event. Nothing selected is ever lost from all three. -/
+theorem C01_a_selected_handler_is_never_lost (w : World) (hr : Reachable w) (p : Proc) (A : Act) (hA : w.act p = some A)
+    (k : HId) (hk : k ∈ A.sel) :
+    k ∈ A.todo ∨ (∃ i, i ∈ A.running ∧ (w.inst i).ev = A.ev ∧ (w.inst i).bus = A.bus ∧ (w.inst i).hid = k) ∨
+      (∃ r, (w.ev A.ev).getRes? A.bus k = some r ∧ r.terminal = true) := by
+  obtain ⟨n, h2, _, h3⟩ := (nsinv_reachable w hr).acts p A hA
+  have hsplit : k ∈ A.sel.take n ∨ k ∈ A.sel.drop n := by
+    rw [← List.take_append_drop n A.sel] at hk
+    exact List.mem_append.mp hk
+  rcases hsplit with h | h
+  · rcases h3 k h with ht | ⟨i, hi, hid⟩
+    · exact Or.inr (Or.inr ht)
+    · simp only [idOf, Prod.mk.injEq] at hid
+      exact Or.inr (Or.inl ⟨i, hi, hid⟩)
+  · left; rw [h2]; exact h
+
+/-- C01, "no handler is skipped": when an activation ends normally in a reachable state (`peEnd` is enabled only with an
+    empty to-do list and no running instance), every handler selected at its beginning has a terminal result on the event. -/
+theorem C01_an_activation_ends_only_after_every_selected_handler_has_a_terminal_result (w w' : World) (hr : Reachable w)
+    (p : Proc) (b : BId) (e : EId) (hs : step w (.peEnd p b e) = some w') :
+    ∃ A, w.act p = some A ∧ A.bus = b ∧ A.ev = e ∧
+      ∀ k, k ∈ A.sel → ∃ r, (w.ev e).getRes? b k = some r ∧ r.terminal = true := by
+  obtain ⟨hg, _⟩ := step_some hs
+  have hgg := hg
+  simp [guard, checks, Checks.ok] at hgg
+  obtain ⟨hact, hout, _⟩ := hgg
+  cases hA : w.act p with
+  | none => simp [actIs, hA] at hact
+  | some A =>
+    simp [actIs, hA] at hact
+    simp [hA] at hout
+    obtain ⟨hb, he⟩ := hact
+    obtain ⟨htodo, hrun⟩ := hout
+    refine ⟨A, rfl, hb, he, fun k hk => ?_⟩
+    rcases C01_a_selected_handler_is_never_lost w hr p A hA k hk with h | ⟨i, hi, _⟩ | h
+    · rw [htodo] at h; simp at h
+    · rw [hrun] at hi; simp at hi
+    · rw [← hb, ← he]; exact h
+
+end Thm
+
 end Bubus
